@@ -19,7 +19,7 @@ ASSUMPTIONS = ['wind segment switches may lag by one integration step: floor inc
                'convergence is checked on a 4-rung ladder, not in the limit', 'spin drift excluded (twist 0); it is C05']
 
 DIMS = dict(dm=['G1', 'RA4', 'custom3', 'multi'], bc=[.05, .9], mv=[1150.0, 4000.0, 600.0], sh=[0.0, -1.0], look=[20.0, -30.0], zero=[0.0, 3.0],
-            rel=[1.0], cant=[30.0, 90.0], atmo=['icao5k', 'hot', 'vac'], wind=['cross', 'head', 'tail', 'seg3', 'q60', 'calm_wind', 'wind_calm_wind'], R=[2400.0])
+            rel=[1.0], cant=[30.0, 90.0], atmo=['icao5k', 'hot', 'vac'], wind=['cross', 'head', 'tail', 'seg3', 'q60', 'calm_wind', 'wind_calm_wind', 'mixed_units'], R=[2400.0])
 EVERYTHING = [
     dict(dm='G1', bc=.3, mv=1150.0, look=20.0, cant=30.0, atmo='hot', wind='seg3', zero=3.0, sh=0.0, rel=1.0),
     dict(mv=1150.0, wind='seg3'), dict(mv=1150.0, wind='seg3', dm='G1', look=20.0), dict(mv=1150.0, wind='q60'),
